@@ -217,6 +217,11 @@ def loose_equal(a, b):
     import numpy as np
 
     seq = (list, tuple, np.ndarray)
+    # a 0-d array is its item (dtype / container type are not judged): array(False) kept over 0.0 is the same value
+    if isinstance(a, np.ndarray) and a.ndim == 0:
+        a = a.item()
+    if isinstance(b, np.ndarray) and b.ndim == 0:
+        b = b.item()
     if isinstance(a, seq) and isinstance(b, seq):
         x = a.tolist() if isinstance(a, np.ndarray) else a  # a 0-d array becomes its item
         y = b.tolist() if isinstance(b, np.ndarray) else b
